@@ -362,6 +362,116 @@ func c11Random(c *fw.Ctx, idx int) {
 }
 
 // (iii) point on line: integer polylines and moderate floats
+// (ii') triangles with one edge as long as the grid allows (corner to corner of
+// +-2^26, or shorter), and query points that miss that edge by the least a
+// lattice point can: determinant +-1 (or on it: 0).  Edges whose slope is a
+// ratio of consecutive Fibonacci numbers are in the class: they take an
+// exact-sign algorithm of the Euclidean kind the greatest number of rounds.
+func c11HardEdges(c *fw.Ctx, idx int) {
+	r := c.R
+	var a, d ipt
+	fib := r.Chance(1, 3)
+	if fib {
+		f := []int64{1, 1}
+		for len(f) < 41 {
+			f = append(f, f[len(f)-1]+f[len(f)-2])
+		}
+		k := r.Range(5, 40)
+		if r.Bool() {
+			k = r.Range(34, 40)
+		}
+		d = ipt{f[k], f[k-1]}
+		if r.Bool() {
+			d = ipt{f[k-1], f[k]}
+		}
+		if r.Bool() {
+			d.x = -d.x
+		}
+		if r.Bool() {
+			d.y = -d.y
+		}
+		c.Count("hard_edges_fibonacci")
+	} else {
+		kk := r.Range(8, 26)
+		if r.Bool() {
+			kk = 26
+		}
+		R := int64(1)<<uint(kk) - 1
+		for {
+			d = ipt{2*R - int64(r.Intn(64)), 2*R - int64(r.Intn(64))}
+			if r.Chance(1, 3) {
+				d = ipt{int64(r.Range(1, int(2*R))), int64(r.Range(1, int(2*R)))}
+			}
+			if r.Bool() {
+				d.x = -d.x
+			}
+			if r.Bool() {
+				d.y = -d.y
+			}
+			if gcd64(d.x, d.y) == 1 {
+				break
+			}
+		}
+		c.Count("hard_edges_corner_to_corner")
+	}
+	// start so that the edge is centred on the origin
+	a = ipt{-d.x / 2, -d.y / 2}
+	b := ipt{a.x + d.x, a.y + d.y}
+	_, x, y := egcd(d.x, d.y)
+	if d.x*x+d.y*y < 0 {
+		x, y = -x, -y
+	}
+	v0, u0 := x, -y // d.x*v0 - d.y*u0 = 1
+	q := int64(math.Round((float64(u0)*float64(d.x) + float64(v0)*float64(d.y)) / (float64(d.x)*float64(d.x) + float64(d.y)*float64(d.y))))
+	u0, v0 = u0-q*d.x, v0-q*d.y // the representative nearest to the start of the edge
+	// third vertex: far off to one side
+	side := int64(1)
+	if r.Bool() {
+		side = -1
+	}
+	cv := ipt{a.x + d.x/2 - side*d.y/3 + int64(r.Range(-50, 50)), a.y + d.y/2 + side*d.x/3 + int64(r.Range(-50, 50))}
+	ring := []ipt{a, b, cv, a}
+	if r.Bool() {
+		ring = []ipt{a, cv, b, a}
+	}
+	if r.Bool() {
+		ring = []ipt{b, cv, a, b}
+	}
+	c.Distinct(fmt.Sprintf("hard/%d/%d", d.x, d.y))
+	var qs []ipt
+	for _, k := range []int64{1, -1, 0, 2, -2} {
+		for _, t := range []int64{0, 1} {
+			qs = append(qs, ipt{a.x + k*u0 + t*(d.x-2*k*u0), a.y + k*v0 + t*(d.y-2*k*v0)})
+		}
+	}
+	if fib {
+		f := []int64{1, 1}
+		for len(f) < 41 {
+			f = append(f, f[len(f)-1]+f[len(f)-2])
+		}
+		sx, sy := int64(1), int64(1)
+		if d.x < 0 {
+			sx = -1
+		}
+		if d.y < 0 {
+			sy = -1
+		}
+		for k := 3; k < 40; k++ {
+			if f[k] == abs64(d.x) || f[k] == abs64(d.y) {
+				if abs64(d.x) > abs64(d.y) {
+					qs = append(qs, ipt{a.x + sx*f[k-1], a.y + sy*f[k-2]}, ipt{a.x + sx*f[k-2], a.y + sy*f[k-3]})
+				} else {
+					qs = append(qs, ipt{a.x + sx*f[k-2], a.y + sy*f[k-1]}, ipt{a.x + sx*f[k-3], a.y + sy*f[k-2]})
+				}
+			}
+		}
+	}
+	for _, p := range qs {
+		c.Count("hard_edge_queries")
+		c11CheckRing(c, p, ring, r.Chance(1, 4))
+	}
+}
+
 func c11OnLine(c *fw.Ctx, idx int) {
 	if c.R.Chance(1, 64) {
 		xyRefusedCalls(c)
@@ -499,6 +609,45 @@ func c11OnLine(c *fw.Ctx, idx int) {
 			return
 		}
 	}
+	// right after a point that is on the line: its neighbours a few units in the last
+	// place away (any offsets up to 64 ulps, and offsets of the form (k, -m*k) for the
+	// multipliers string and coordinate hashes like to use), asked one after the other
+	if !want || !useFloat || !c.R.Chance(1, 2) {
+		return
+	}
+	for k := 0; k < 10; k++ {
+		dx, dy := r.Range(-64, 64), r.Range(-64, 64)
+		if k >= 4 {
+			dx = []int{1, -1, 2, -2}[r.Intn(4)]
+			dy = -dx * []int{1, 2, 3, 7, 15, 16, 17, 31, 32, 33, 37, 63}[r.Intn(12)]
+			if r.Bool() {
+				dy = -dy
+			}
+		}
+		q := [2]float64{gen.NextAfterN(p[0], dx), gen.NextAfterN(p[1], dy)}
+		eq := exact.Pt(q[0], q[1])
+		wq := false
+		for j := 1; j < n; j++ {
+			if exact.OnSegment(eq, exact.Pt(line[j-1][0], line[j-1][1]), exact.Pt(line[j][0], line[j][1])) {
+				wq = true
+			}
+		}
+		qc := geom.Coord{q[0], q[1], math.NaN(), 1}[:stride]
+		var g0, g1 bool
+		if c.Guard("panic", func() {
+			g0 = xy.IsOnLine(layout, pc, flat) // the point on the line again ...
+			g1 = xy.IsOnLine(layout, qc, flat) // ... and then its neighbour
+		}) {
+			return
+		}
+		c.Eval(2)
+		c.Count("online_ulp_neighbours_asked_right_after_a_point_on_the_line")
+		if g0 != want || g1 != wq {
+			c.SetInput(map[string]any{"point": fw.Fs(p[:]), "neighbour": fw.Fs(q[:]), "ulps": []int{dx, dy}, "line": fw.Fs(flat), "stride": stride})
+			c.Fail("wrong-online", "IsOnLine(point on the line) = %v (exact %v), then IsOnLine(its neighbour %d,%d ulps away) = %v (exact %v)", g0, want, dx, dy, g1, wq)
+			return
+		}
+	}
 }
 
 func init() {
@@ -513,6 +662,7 @@ func init() {
 			{Name: "exhaustive-4", Quick: 65536, Thorough: 65536, Run: c11Exh4, Exhaustive: "all closed rings of 4 vertices on a 4x4 grid x all 16 query points"},
 			{Name: "random-rings", Quick: 60000, Thorough: 1500000, Run: c11Random},
 			{Name: "on-line", Quick: 150000, Thorough: 3000000, Run: c11OnLine},
+			{Name: "hard-edges", Quick: 20000, Thorough: 600000, Run: c11HardEdges},
 		},
 		Require: []string{"loc_interior", "loc_boundary", "loc_exterior", "on_vertex", "on_edge_interior", "ray_through_vertex", "horizontal_edge_on_ray", "variant_sets", "online_true", "online_false", "online_float_inputs"},
 	})
